@@ -167,6 +167,61 @@ func runC19(c *Ctx) {
 		}
 		c.count(fmt.Sprintf("distinct_strings_%d", min(distinct(inputs), 12)))
 	}
+	// long histories: thousands of distinct values through one interned field while the
+	// caller keeps everything it was given; whatever the table does when it grows,
+	// fills up or starts afresh, strings handed out earlier never change
+	for _, total := range []int{300, 1100, scale(c, 2300, 9000)} {
+		pi := newInstance(cfg)
+		type held struct{ s, n, l, want string }
+		var kept []held
+		buf := make([]byte, 0, 8192)
+		desc := fmt.Sprintf("long history: %d distinct interned values, all results retained", total)
+		c.crumb(desc)
+		for i := 0; i < total; i++ {
+			var s string
+			switch {
+			case i%97 == 96:
+				s = fmt.Sprintf("big-%06d-", i) + strings.Repeat("y", 3000+c.rng.Intn(3000)) // crosses any small arena
+			case i%5 == 4 && i > 10:
+				s = kept[c.rng.Intn(len(kept))].want // a repeat
+			default:
+				s = fmt.Sprintf("value-%06d-%s", i, strings.Repeat("p", c.rng.Intn(24)))
+			}
+			in := PlainT{S: s, N: null.StringFrom(s), L: []PlainE{{X: s}}}
+			d, err := pi.Marshal(nil, &in)
+			if err != nil {
+				break
+			}
+			buf = append(buf[:0], d...)
+			var got InternT
+			if err := pi.Unmarshal(buf, &got); err != nil || len(got.L) != 1 {
+				c.native = append(c.native, NativeViolation{Case: desc, What: fmt.Sprintf("Unmarshal failed at value %d: %v", i, err), Class: "intern-decode"})
+				break
+			}
+			for j := range buf {
+				buf[j] = 0xEE
+			}
+			if got.S != s || got.N.String != s || got.L[0].X != s {
+				c.native = append(c.native, NativeViolation{Case: desc, What: fmt.Sprintf("value %d read back as %q / %q / %q, want %q", i, trunc(got.S, 60), trunc(got.N.String, 60), trunc(got.L[0].X, 60), trunc(s, 60)), Class: "intern-differs"})
+				break
+			}
+			kept = append(kept, held{got.S, got.N.String, got.L[0].X, s})
+		}
+		changed := 0
+		first := ""
+		for i, k := range kept {
+			if k.s != k.want || k.n != k.want || k.l != k.want {
+				if changed == 0 {
+					first = fmt.Sprintf("the string returned by decode number %d was %q and has become %q", i, trunc(k.want, 60), trunc(k.s+"|"+k.n+"|"+k.l, 200))
+				}
+				changed++
+			}
+		}
+		if changed > 0 {
+			c.native = append(c.native, NativeViolation{Case: desc, What: fmt.Sprintf("%d previously returned interned strings changed: %s", changed, first), Class: "intern-retained-changed"})
+		}
+		c.count("long_histories")
+	}
 	// concurrent readers on one instance (free-running; under the race detector in the thorough tier)
 	ng := scale(c, 40, 400)
 	for trial := 0; trial < ng; trial++ {
